@@ -6,6 +6,7 @@ from typing import Any, Dict, List, Optional, Tuple
 
 from ..ctx import Ctx
 from ..model import AnalysisError, Mod, norm
+from ..util import resolve_const
 
 # stackscope's field names that legitimately differ from the header's
 ALIASES = {("f_func", "f_funcobj"): "renamed in 3.12", ("yield_offset", "return_offset"): "renamed during 3.12 betas"}
@@ -262,18 +263,29 @@ def lay310(ctx: Ctx) -> None:
         seen = {"maxblocks": 0, "iblock": 0, "lasti": 0, "except": 0}
         for n in ast.walk(fn):
             # 20 * ctypes.sizeof(PyTryBlock)
-            if isinstance(n, ast.BinOp) and isinstance(n.op, ast.Mult) and isinstance(n.left, ast.Constant) and norm(n.right) == "ctypes.sizeof(PyTryBlock)":
+            if isinstance(n, ast.BinOp) and isinstance(n.op, ast.Mult) and norm(n.right) == "ctypes.sizeof(PyTryBlock)" and isinstance(n.left, (ast.Constant, ast.Name)):
+                okc, lv = resolve_const(mod, n, n.left)
+                if not okc or not isinstance(lv, int):
+                    ctx.R.undecided("LAY-310", f"cannot resolve `{norm(n.left)}` to a constant")
+                    seen["maxblocks"] += 1
+                    continue
                 seen["maxblocks"] += 1
-                if n.left.value != want_blocks or n.left.value * tsize != bs_size:
-                    ctx.R.fail("LAY-310", mod, n, f"CPython {v}: block stack is CO_MAXBLOCKS={want_blocks} entries of {tsize} bytes ({bs_size} bytes), code assumes {n.left.value}",
+                if lv != want_blocks or lv * tsize != bs_size:
+                    ctx.R.fail("LAY-310", mod, n, f"CPython {v}: block stack is CO_MAXBLOCKS={want_blocks} entries of {tsize} bytes ({bs_size} bytes), code assumes {lv}",
                                construct=f"{v}: {norm(n)}")
                 else:
                     ctx.R.ok("LAY-310", f"{v}: {norm(n)} == sizeof(f_blockstack) == {bs_size}")
             # assert 0 <= f_iblock.value <= 20
             if isinstance(n, ast.Compare) and any(norm(x) == "f_iblock.value" for x in [n.left] + n.comparators):
-                consts = [x.value for x in [n.left] + n.comparators if isinstance(x, ast.Constant)]
+                consts = []
+                for x in [n.left] + n.comparators:
+                    okc, cv = resolve_const(mod, n, x)
+                    if okc and isinstance(cv, int):
+                        consts.append(cv)
                 seen["maxblocks"] += 1
-                if max(consts) != want_blocks:
+                if len(consts) < 2:
+                    ctx.R.undecided("LAY-310", f"cannot resolve the bounds of `{norm(n)}`")
+                elif max(consts) != want_blocks:
                     ctx.R.fail("LAY-310", mod, n, f"CPython {v}: f_iblock is bounded by CO_MAXBLOCKS={want_blocks}, code checks {max(consts)}", construct=f"{v}: {norm(n)}")
                 else:
                     ctx.R.ok("LAY-310", f"{v}: {norm(n)}")
@@ -296,12 +308,13 @@ def lay310(ctx: Ctx) -> None:
             # 257 == EXCEPT_HANDLER
             if isinstance(n, ast.Compare) and any(norm(x) == "block.b_type" for x in [n.left] + n.comparators):
                 for x in [n.left] + n.comparators:
-                    if isinstance(x, ast.Constant) and isinstance(x.value, int) and x.value > 200:
+                    okc, xv = resolve_const(mod, n, x) if isinstance(x, (ast.Constant, ast.Name)) else (False, None)
+                    if okc and isinstance(xv, int) and not isinstance(xv, bool) and xv > 200:
                         seen["except"] += 1
-                        if x.value != H["EXCEPT_HANDLER"]:
-                            ctx.R.fail("LAY-310", mod, n, f"CPython {v}: EXCEPT_HANDLER is {H['EXCEPT_HANDLER']}, code uses {x.value}", construct=f"{v}: {norm(n)[:100]}")
+                        if xv != H["EXCEPT_HANDLER"]:
+                            ctx.R.fail("LAY-310", mod, n, f"CPython {v}: EXCEPT_HANDLER is {H['EXCEPT_HANDLER']}, code uses {xv}", construct=f"{v}: {norm(n)[:100]}")
                         else:
-                            ctx.R.ok("LAY-310", f"{v}: EXCEPT_HANDLER literal {x.value} in {norm(n)[:50]}")
+                            ctx.R.ok("LAY-310", f"{v}: EXCEPT_HANDLER literal {xv} in {norm(n)[:50]}")
         for k, c in seen.items():
             if c == 0:
                 raise AnalysisError(f"LAY-310: anchor for {k} vanished from inspect_frame")
